@@ -39,7 +39,20 @@ template <typename Container, fcppt::optional::object_concept Optional>
       std::forward<Optional>(_source),
       [] { return Container{}; },
       [](auto &&_inner)
-      { return fcppt::container::make<Container>(fcppt::move_if_rvalue<Optional>(_inner)); });
+      {
+        // container::make always moves from its arguments: only an rvalue
+        // source may be handed over directly, an lvalue has to be copied first.
+        if constexpr (std::is_lvalue_reference_v<Optional>)
+        {
+          fcppt::optional::value_type<Optional> copy{_inner};
+
+          return fcppt::container::make<Container>(std::move(copy));
+        }
+        else
+        {
+          return fcppt::container::make<Container>(std::move(_inner));
+        }
+      });
 }
 }
 
